@@ -449,7 +449,7 @@ class ChannelState(utils.python.Object):
             return Set
         for (mode, value) in ircutils.separateModes(msg.args[1:]):
             (action, modeChar) = mode
-            if modeChar in 'ovhbeq': # We don't handle e or q yet.
+            if modeChar in 'ovhbeqI': # We don't handle e, q or I yet.
                 Set = getSet(modeChar)
                 if action == '-':
                     Set.discard(value)
